@@ -419,6 +419,14 @@ func (c *c04) stringsWorkload(thorough bool) {
 		tc.L1.L1.Fund(who.Addr, sdk.NewCoin(d, math.NewInt(1_000_000_000)))
 	}
 	for round := 0; round < pick(thorough, 2, 40); round++ {
+		// an empty deposit of a denom L2 has never seen, to a recipient L2 cannot use: L1 accepts it, so L2 must be able
+		// to process it (or every later deposit waits behind it for ever)
+		if r := tc.L1Deposit(who, l2BadRecipients[round%len(l2BadRecipients)], fmt.Sprintf("unever%d", round), math.ZeroInt(), nil); r.Class == sim.OK {
+			if rr, _ := tc.RelayNext(); rr.Class != sim.OK {
+				run.Fail("C04.accepted_deposit_is_relayable", "c04.relay_failed.empty_first_deposit", []string{fmt.Sprintf("empty deposit of unever%d to %q", round, l2BadRecipients[round%len(l2BadRecipients)])}, "relay of an empty first deposit of a denom failed: %s", rr.ErrString())
+				return
+			}
+		}
 		for di, d := range denoms {
 			u := tc.L2.Users[di%4]
 			if r := tc.L1Deposit(who, u.String(), d, math.NewInt(100_000), nil); r.Class != sim.OK {
